@@ -303,7 +303,23 @@ enum ResolverKind {
 }
 
 macro_rules! attach_all {
-  ($resolver:ident, $methods:expr, $iota:expr, $jwk:expr) => {{
+  ($resolver:ident, $methods:expr, $iota:expr, $jwk:expr, $reattach:expr) => {{
+    if $reattach {
+      // handlers registered first and then REPLACED by the ones below ("If there already exists a handler for this
+      // method then it will be replaced"): they must never run
+      for m in $methods.iter() {
+        let hm: String = format!("{m}@replaced");
+        $resolver.attach_handler((*m).to_owned(), move |did: CoreDID| {
+          let hm = hm.clone();
+          async move { handler_body(hm, did.into_string()).await }
+        });
+      }
+      if $iota {
+        $resolver.attach_handler("iota".to_owned(), move |did: CoreDID| async move {
+          handler_body("iota@replaced".to_owned(), did.into_string()).await
+        });
+      }
+    }
     for m in $methods.iter() {
       let hm: String = (*m).to_owned();
       $resolver.attach_handler(hm.clone(), move |did: CoreDID| {
@@ -498,6 +514,7 @@ impl Engine for ResEngine {
       "probe.parse_error_single".to_owned(),
       "probe.did_jwk_resolved".to_owned(),
       "probe.did_jwk_same_key_variants_resolved_together".to_owned(),
+      "probe.handlers_replaced_before_use".to_owned(),
     ];
     if tier == "thorough" {
       v.push("cover:perm4>=24".to_owned());
@@ -624,13 +641,17 @@ impl Engine for ResEngine {
     }
 
     // ---- build the resolver ----
+    let reattach = ctx::choose(4) == 0;
+    if reattach {
+      ctx::stat("probe.handlers_replaced_before_use");
+    }
     let resolver = if send_sync {
       let mut r: Resolver<CoreDocument> = Resolver::new();
-      attach_all!(r, methods, with_iota, with_jwk);
+      attach_all!(r, methods, with_iota, with_jwk, reattach);
       ResolverKind::SendSync(r)
     } else {
       let mut r: SingleThreadedResolver<CoreDocument> = SingleThreadedResolver::new();
-      attach_all!(r, methods, with_iota, with_jwk);
+      attach_all!(r, methods, with_iota, with_jwk, reattach);
       ResolverKind::Single(r)
     };
 
